@@ -1,7 +1,7 @@
 (* C13 -- property theorems only.  Proofs live in C13/Proofs*.v. *)
 From Coq Require Import NArith List Sorted.
 From DV Require Import Base.Outcome Base.Bytes Base.Lex Base.Names C11.Sha C13.Gen C13.Model
-  C13.ProofsBitmap C13.ProofsNames C13.ProofsNsec2 C13.ProofsDeny C13.ProofsGroups C13.ProofsN3c C13.ProofsN3d C13.ProofsN3e C13.ProofsN3f C13.ProofsDedup C13.ProofsTtl C13.ModelLabel C13.ProofsLabel C13.ProofsIter C13.ProofsTtl3 C13.ProofsOrder.
+  C13.ProofsBitmap C13.ProofsNames C13.ProofsNsec2 C13.ProofsDeny C13.ProofsGroups C13.ProofsN3c C13.ProofsN3d C13.ProofsN3e C13.ProofsN3f C13.ProofsDedup C13.ProofsTtl C13.ModelLabel C13.ProofsLabel C13.ProofsIter C13.ProofsTtl3 C13.ProofsOrder C13.ProofsReparse.
 Import ListNotations.
 Local Open Scope N_scope.
 
@@ -139,7 +139,7 @@ Print Assumptions C13_nsec_mixed_ttl_rrset_panics_refuted.
 Theorem C13_sorted_records_sorted_and_complete : forall l,
   zone_sorted (strip (sorted_records l)) /\
   forall o x, has_type (strip (sorted_records l)) o x <-> has_type (strip l) o x.
-Proof. intros l. split; [apply sorted_records_sorted|apply sorted_records_types]. Qed.
+Proof. exact sorted_records_sorted_and_complete. Qed.
 Print Assumptions C13_sorted_records_sorted_and_complete.
 
 Theorem C13_sorted_records_nsec_end_to_end : forall l apex dk out,
@@ -167,10 +167,10 @@ Proof. exact nsec3_t_erasure. Qed.
 Print Assumptions C13_nsec3_ttl_class_erasure.
 
 Theorem C13_nsec3_ttl_class_from_soa : forall H apex c m z o, generate_nsec3s_t H apex c m z = Ok o ->
-  o_class o = 1 /\
   (forall x, In x (o_recs o) -> exists s, In s z /\ t_type s = 6 /\ snd x = N.min (t_min s) (t_ttl s)) /\
   (exists s, In s z /\ t_type s = 6 /\
-     o_param_ttl o = match m with PFixed t => t | PSoa => t_ttl s | PSoaMin => t_min s end).
+     o_param_ttl o = match m with PFixed t => t | PSoa => t_ttl s | PSoaMin => t_min s end /\
+     o_class o = if nsec3_class_fixed then 1 else t_class s).
 Proof. exact nsec3_t_ttl_class. Qed.
 Print Assumptions C13_nsec3_ttl_class_from_soa.
 
@@ -182,7 +182,8 @@ Print Assumptions C13_nsec3_ttl_model_no_panic.
 Theorem C13_nsec3param_record : forall H apex c m z o, generate_nsec3s_t H apex c m z = Ok o ->
   exists s, In s z /\ t_type s = 6 /\
     nsec3param_record apex c o =
-      (apex, 1, match m with PFixed t => t | PSoa => t_ttl s | PSoaMin => t_min s end,
+      (apex, (if nsec3_class_fixed then 1 else t_class s),
+       match m with PFixed t => t | PSoa => t_ttl s | PSoaMin => t_min s end,
        (c_alg c, c_flags c, c_iters c, c_salt c)).
 Proof. exact nsec3param_record_spec. Qed.
 Print Assumptions C13_nsec3param_record.
@@ -195,7 +196,7 @@ Print Assumptions C13_bitmap_reparses.
 Theorem C13_sorted_records_class : forall l,
   StronglySorted (fun a b => fst a <= fst b) (cr_sort l) /\
   (forall k, Forall (fun x => fst x = k) l -> map snd (sorted_records_c l) = sorted_records (map snd l)).
-Proof. intros l. split; [exact (cr_sort_class_sorted l)|intros k; exact (sorted_records_one_class k l)]. Qed.
+Proof. exact sorted_records_class. Qed.
 Print Assumptions C13_sorted_records_class.
 
 Theorem C13_nsec3_owner_order : forall n h1 h2 apex, length h1 = (5 * n)%nat -> length h2 = (5 * n)%nat ->
@@ -204,3 +205,44 @@ Theorem C13_nsec3_owner_order : forall n h1 h2 apex, length h1 = (5 * n)%nat -> 
     name_cmp o1 o2 = lex_cmp h1 h2.
 Proof. exact nsec3_owner_order. Qed.
 Print Assumptions C13_nsec3_owner_order.
+
+Theorem C13_sorted_records_entry_points : forall ops,
+  zone_sorted (strip (sr_run ops)) /\
+  forall o t, has_type (strip (sr_run ops)) o t <-> has_type (strip (sr_input ops)) o t.
+Proof. exact sorted_records_entry_points. Qed.
+Print Assumptions C13_sorted_records_entry_points.
+
+Theorem C13_any_sort : forall l v, Permutation.Permutation v l -> cmp_sorted v ->
+  zone_sorted (strip (sr_dedup v)) /\
+  (unknown_eq_checks_rtype = true -> forall o x, has_type (strip (sr_dedup v)) o x <-> has_type (strip l) o x).
+Proof. exact any_sort_spec. Qed.
+Print Assumptions C13_any_sort.
+
+Theorem C13_any_sort_nsec_end_to_end : forall l v apex dk out, Permutation.Permutation v l -> cmp_sorted v ->
+  generate_nsecs apex dk (strip (sr_dedup v)) = Ok out ->
+  (forall n, auth_name apex (strip l) n <-> exists r, In r out /\ name_eqb (n_owner r) n = true) /\
+  StronglySorted (fun a b => name_cmp (n_owner a) (n_owner b) = Lt) out.
+Proof. exact any_sort_nsec_end_to_end. Qed.
+Print Assumptions C13_any_sort_nsec_end_to_end.
+
+Theorem C13_nsec3_hash_canonical : forall H a b iterations salt,
+  nsec3_hash H a iterations salt = nsec3_hash H (canon a) iterations salt /\
+  (name_eqb a b = true -> nsec3_hash H a iterations salt = nsec3_hash H b iterations salt).
+Proof. exact nsec3_hash_canonical_both. Qed.
+Print Assumptions C13_nsec3_hash_canonical.
+
+Theorem C13_generated_bitmaps_reparse : forall H apex c dk z,
+  zone_sorted z -> types_ok z ->
+  (forall out, generate_nsecs apex dk z = Ok out -> forall r, In r out ->
+     bm_wire_ok None (n_types r) /\ bm_from_octets (n_types r) = Ok tt) /\
+  (forall out, generate_nsec3s H apex c z = Ok out -> forall r, In r out ->
+     bm_wire_ok None (h_types r) /\ bm_from_octets (h_types r) = Ok tt) /\
+  bm_finalize [] = [].
+Proof. exact generated_bitmaps_reparse. Qed.
+Print Assumptions C13_generated_bitmaps_reparse.
+
+Theorem C13_nsec3_sha1_owner_order : forall a b i s apex,
+  exists o1 o2, nsec3_owner_name (c13_hash a i s) apex = Ok o1 /\ nsec3_owner_name (c13_hash b i s) apex = Ok o2 /\
+    name_cmp o1 o2 = lex_cmp (c13_hash a i s) (c13_hash b i s).
+Proof. exact nsec3_sha1_owner_order. Qed.
+Print Assumptions C13_nsec3_sha1_owner_order.
